@@ -548,8 +548,8 @@ class Session:
         # requests without id are not in pending; they are kept separately
         for p in self.idless:
             if p.state == "sent" and isinstance(p.params, dict) and p.params.get("path") == path:
-                if p.method == "set" and isinstance(pr, dict) and jeq(pr.get("value"), p.params.get("value")):
-                    return p
+                if p.method == "set" and isinstance(pr, dict) and len(pr) == 1 and "value" in pr and "value" in p.params and jeq(pr["value"], p.params["value"]):
+                    return p        # (a set without value is never forwarded: it must not claim another request's forward)
                 if p.method == "call" and jeq(pr, p.params.get("args", {})):
                     return p
         return None
